@@ -23,7 +23,7 @@ SUITE_MODULES = {
     "sheader": "FrameC",
     "typestate": "StreamTSC", "request": "SessionC",
     "session": "E2C", "control": "E2C", "control_cut": "E2C", "streams": "E2C", "foreign": "E2C",
-    "unknown_uni": "E2C", "stall": "E2C", "pace": "E2C", "emit": "E2C", "signals": "E2C", "wdgram": "E2C", "client": "E2C", "pair": "E2C", "requests": "E2C",
+    "unknown_uni": "E2C", "stall": "E2C", "pace": "E2C", "emit": "E2C", "signals": "E2C", "wdgram": "E2C", "client": "E2C", "pair": "E2C", "requests": "E2C", "credit": "E2C",
     "pin": "E4C", "digest": "E4C", "pem": "E4C", "identity": "E4C", "bind": "E4C", "idle": "E4C", "alpn": "E4C", "reload": "E4C",
     "wire": "WireC", "settings": "WireC", "dgram": "WireC", "capsule": "WireC", "ids": "WireC", "status": "WireC",
 }
@@ -117,7 +117,7 @@ PROPS["C13"] = {
 PROPS["C17"] = {
     "title": "Identifier algebra is exact and foreign-session traffic is never delivered",
     "corr_modules": ["WireC", "FrameC", "E2C"],
-    "suites": [("e1", "ids", ["debug"]), ("e1", "dgram", ["debug"]), ("e1", "sheader", ["debug"]), ("e2", "foreign", ["debug"]), ("e2", "wdgram", ["debug"])],
+    "suites": [("e1", "ids", ["debug"]), ("e1", "dgram", ["debug"]), ("e1", "sheader", ["debug"]), ("e2", "foreign", ["debug"]), ("e2", "wdgram", ["debug"]), ("e2", "emit", ["debug"])],
     "technique": PROOF_TECH,
     "level_text": "theorems for all 2^62 ids: acceptance iff client-initiated bidirectional, conversions mutually inverse and in range, unsafe preconditions never violated, parsed session ids always valid; tie: differential runs over all low-bit classes x boundary magnitudes",
     "level_note": CODEC_NOTE + "; the driver-level session filter (foreign streams stopped, foreign datagrams dropped) is exercised by the wire engine, see DESIGN.md",
@@ -206,7 +206,7 @@ PROPS["C01"] = {
 PROPS["C05"] = {
     "title": "Control-plane interpretation is independent of segmentation and interleaving",
     "corr_modules": ["E2C", "FrameC"],
-    "suites": [("e2", "control_cut", ["debug"]), ("e2", "client", ["debug"]), ("e1", "frame", ["debug"])],
+    "suites": [("e2", "control_cut", ["debug"]), ("e2", "client", ["debug"]), ("e1", "frame", ["debug"]), ("e2", "control", ["debug"])],
     "technique": PROOF_TECH,
     "level_text": "theorems: without cancellation every segmentation and Pending pattern yields the same outcome (poll machines); cancelling a control-plane read that holds no partial progress is harmless; the pinned worker cancels mid-frame (refuted by a computed witness = the known finding) and that is the only failing class; tie: cut x inject matrix against the running driver, cut-only cases must agree with the uncut prediction",
     "level_note": CODEC_NOTE + WIRE_NOTE + "; which events make a select! branch win is runtime behaviour",
@@ -218,7 +218,7 @@ PROPS["C05"] = {
 PROPS["C07"] = {
     "title": "Streams are independent: a stalled stream never blocks the others",
     "corr_modules": ["E2C"],
-    "suites": [("e2", "stall", ["debug"])],
+    "suites": [("e2", "stall", ["debug"]), ("e2", "credit", ["debug"])],
     "technique": PROOF_TECH,
     "level_text": "theorems on the hand-off transition system for every capacity, every number of stalled streams and every interleaving: no stalled stream disables the worker, another stream's task or the application; a healthy stream is delivered by a bounded plan using only its own and worker/app steps; the pinned design is refuted (one stalled stream blocks all); tie: k stalled streams of either kind at each stall position followed by healthy ones against the running driver",
     "level_note": CODEC_NOTE + WIRE_NOTE + "; liveness is bounded steps of the model under its scheduler; tokio wake-ups are observed, not modelled",
@@ -230,7 +230,7 @@ PROPS["C07"] = {
 PROPS["C08"] = {
     "title": "Every peer-opened stream is delivered exactly once at any acceptance pace",
     "corr_modules": ["E2C"],
-    "suites": [("e2", "pace", ["debug"]), ("e2", "streams", ["debug"])],
+    "suites": [("e2", "pace", ["debug"]), ("e2", "streams", ["debug"]), ("e2", "pair", ["debug"])],
     "technique": PROOF_TECH,
     "level_text": "theorem (induction over arbitrary label sequences = all interleavings, all capacities): the opened streams are partitioned among accept queue, tasks, channel, delivered and ended -- none lost, duplicated or invented; cancelling an accept changes nothing; tie: 10-40 (thorough 120) streams with slow, multi-task and cancelling acceptors against the running driver",
     "level_note": CODEC_NOTE + WIRE_NOTE + "; tokio's documented cancel safety of mpsc::Receiver::recv and Mutex::lock is trusted",
@@ -255,7 +255,7 @@ PROPS["C16"] = {
     "title": "Everything the endpoint emits is well-formed HTTP/3 and WebTransport",
     "corr_modules": ["WireC", "QpackC", "StreamTSC", "FrameC", "E2C"],
     "suites": [("e1", "settings", ["debug"]), ("e1", "qpack", ["debug"]), ("e1", "sheader", ["debug"]), ("e1", "typestate", ["debug"]),
-               ("e2", "emit", ["debug"]), ("e2", "client", ["debug"])],
+               ("e2", "emit", ["debug"]), ("e2", "client", ["debug"]), ("e1", "frame", ["debug"])],
     "technique": PROOF_TECH,
     "level_text": "theorems against independently written specification constants: control stream = type 0 + one SETTINGS frame with the WebTransport settings for every map order; stream preambles = registered type/signal + session id in minimal varints; datagrams prefixed by the quarter stream id; field sections with zero Required Insert Count/Base and sound static references; error codes equal the registry; tie: encoder outputs compared byte for byte with the model",
     "level_note": CODEC_NOTE + "; Spec constants transcribed from the RFCs from memory",
